@@ -6,6 +6,7 @@ open NfcVerif NfcVerif.Tlv NfcVerif.T34 NfcVerif.Hist
 Line-protocol driver of the C01 models that are not part of the shared drivers `drv_t12` / `drv_t34`:
 
   h12 <t2|t1s|t1d> <mem> <attempts>   history of assignments through one Type 1 / Type 2 Tag object
+  h12r ...                             the same on a tree with the repair of t12-empty-after-unacknowledged-length-write
   h3  <mem> <attempts>                 ... Type 3 Tag object (also the emulated tag: mem = block store)
   h4  <var> <cc> <file> <fid> <mle> <mlc> <attempts>
         -> <res> <cmds> | ... | <what a fresh reader sees>      (none / exc Name when activation finds no NDEF)
@@ -60,14 +61,16 @@ def parseAttempts (s : String) : Option (List (Bytes × Option Fault)) :=
       | _, _ => none
     | _ => none
 
-def h12 (c : Cfg) (m : Bytes) (atts : List (Bytes × Option Fault)) : String :=
+def h12 (rep : Bool) (c : Cfg) (m : Bytes) (atts : List (Bytes × Option Fault)) : String :=
   match readNdef c m with
   | .error e => "exc " ++ e.name
   | .ok none => "none"
   | .ok (some L) =>
-    let r := history c L (fresh m) atts
+    let r : Bytes × List (List Cmd × Py Unit) :=
+      if rep then (let x := historyR c L (freshR m) atts; (x.1.tag, x.2))
+      else (let x := history c L (fresh m) atts; (x.1.tag, x.2))
     " | ".intercalate ((r.2.map fun a => showRes a.2 ++ " " ++ joinC (a.1.map fun x => s!"{x.1}:{toHex x.2}"))
-      ++ [showRead c r.1.tag])
+      ++ [showRead c r.1])
 
 def h3 (m : Bytes) (atts : List (Bytes × Option Fault)) : String :=
   match T3.readNdef m with
@@ -97,7 +100,9 @@ def emuOf (ids store : Bytes) : T3Emu.Emu := ⟨ids.take 8, (ids.drop 8).take 8,
 def handle (line : String) : String :=
   match line.splitOn " " with
   | ["h12", k, mh, a] => match cfgOf k, parseHex mh, parseAttempts a with
-    | some c, some m, some a => h12 c m a | _, _, _ => "bad-op"
+    | some c, some m, some a => h12 false c m a | _, _, _ => "bad-op"
+  | ["h12r", k, mh, a] => match cfgOf k, parseHex mh, parseAttempts a with
+    | some c, some m, some a => h12 true c m a | _, _, _ => "bad-op"
   | ["h3", mh, a] => match parseHex mh, parseAttempts a with
     | some m, some a => h3 m a | _, _ => "bad-op"
   | ["h4", v, cc, f, fid, e, c, a] =>
